@@ -263,10 +263,7 @@ func TestC03(t *testing.T) {
 	st.Stream("enum-fragment", true, fmt.Sprintf("all trees of operator depth <= %d over %d fragment leaves (one per form x bound kind x inclusivity x value kind), operators AND OR NOT + -", depth, len(leaves)))
 	gen.EnumTrees(leaves, depth, gen.EnumOps{}, cfg.Shard, cfg.NShards, func(n *gen.Node) {
 		// enumerated trees share sub-nodes: copy before sanitising
-		raw, _ := json.Marshal(n)
-		var cp gen.Node
-		_ = json.Unmarshal(raw, &cp)
-		run("enum-fragment", FragCase{Tree: &cp, Fields: fields})
+		run("enum-fragment", FragCase{Tree: gen.Clone(n), Fields: fields})
 	})
 
 	st.Rapid(t, "random-fragment", cfg.N(8000, 600000), func(rt *rapid.T) {
